@@ -992,7 +992,7 @@ overload_loop:
 
 		// instantiate generic overloads
 		instantiation, errs := t.instantiator.InstantiateGenericFunction(overload, genericTypes)
-		if len(errs) != 0 {
+		if instantiation == nil || containsErrors(errs) { // warnings alone do not disqualify the overload
 			return nil
 		}
 
@@ -1000,6 +1000,16 @@ overload_loop:
 		return operator_overload
 	}
 	return nil
+}
+
+// reports wether errs contains an error (and not only warnings)
+func containsErrors(errs []ddperror.Error) bool {
+	for i := range errs {
+		if errs[i].Level == ddperror.LEVEL_ERROR {
+			return true
+		}
+	}
+	return false
 }
 
 func (t *Typechecker) findOverloadCast(expr *ast.CastExpr, operand operand) *ast.OperatorOverload {
@@ -1054,7 +1064,7 @@ func (t *Typechecker) findOverloadCast(expr *ast.CastExpr, operand operand) *ast
 		}
 
 		instantiation, errs := t.instantiator.InstantiateGenericFunction(overload, genericTypes)
-		if len(errs) != 0 {
+		if instantiation == nil || containsErrors(errs) { // warnings alone do not disqualify the overload
 			return nil
 		}
 
